@@ -138,7 +138,7 @@ impl Property for P {
     }
     fn cases(tier: Tier) -> u64 {
         match tier {
-            Tier::Quick => 300_000,
+            Tier::Quick => 1_000_000,
             Tier::Thorough => 16_000_000,
         }
     }
